@@ -40,6 +40,9 @@ type c18State struct {
 	bySig map[string]*c18Badge
 	pre   map[*c03RelInfo]*c18Pre
 	users map[string]bool // addresses of badge users (never developers)
+	// oracles=false: only the ledgers are kept (C03 mixes badge relays into its workload without
+	// evaluating C18's oracles)
+	oracles bool
 }
 
 func (st *c18State) preHook(tx *c03TxInfo, q sdk.Context) {
@@ -91,6 +94,11 @@ func (st *c18State) postHook(tx *c03TxInfo) {
 		}
 	}()
 	chainID := s.Ctx.BlockHeader().ChainID
+	chk := func(ok bool, class, sig, format string, a ...interface{}) {
+		if st.oracles {
+			r.Check(ok, class, sig, format, a...)
+		}
+	}
 	if !tx.OK {
 		for _, ri := range tx.Rels {
 			if ri.P.MustReject != "" && ri.P.Badge != nil {
@@ -121,20 +129,28 @@ func (st *c18State) postHook(tx *c03TxInfo) {
 		}
 	}
 	for _, ri := range tx.Rels {
+		if st.oracles && credit[ri] > ri.P.Rel.CuSum {
+			// credit above the signed CU is C04's subject (known finding there); the badge ledger of
+			// this run would only repeat it
+			r.Probe("c18_credit_above_signed_cu_is_C04")
+			r.Abort()
+		}
+	}
+	for _, ri := range tx.Rels {
 		rel := ri.P.Rel
 		// forged variants built by the harness must never be honoured
-		r.Check(ri.P.MustReject == "" || ri.P.Badge == nil, "c18-forged-badge-honoured", c03KindClass(ri.P.Kind),
+		chk(ri.P.MustReject == "" || ri.P.Badge == nil, "c18-forged-badge-honoured", c03KindClass(ri.P.Kind),
 			"relay #%d (session=%d epoch=%d signer=%s) was paid at height %d although: %s", ri.Idx, rel.SessionId, rel.Epoch, s.NameOf(ri.SignerAddr), tx.Height, ri.P.MustReject)
 		if st.users[ri.SignerAddr] {
 			// signed by a badge user: can only have been paid through a badge of this tx that is made
 			// out to this very address, for this very epoch and for this lava chain
 			b := ri.ViaBadge
-			r.Check(b != nil, "c18-foreign-badge-honoured", "address_or_epoch",
+			chk(b != nil, "c18-foreign-badge-honoured", "address_or_epoch",
 				"relay #%d signed by badge user %s for epoch %d was paid although the tx carries no badge for that address and epoch", ri.Idx, s.NameOf(ri.SignerAddr), rel.Epoch)
 			if b == nil {
 				continue
 			}
-			r.Check(b.LavaChainId == chainID && rel.LavaChainId == chainID, "c18-foreign-badge-honoured", "lava_chain",
+			chk(b.LavaChainId == chainID && rel.LavaChainId == chainID, "c18-foreign-badge-honoured", "lava_chain",
 				"relay #%d paid through a badge for lava chain %q (relay %q) on chain %q", ri.Idx, b.LavaChainId, rel.LavaChainId, chainID)
 		}
 		b := ri.ViaBadge
@@ -145,9 +161,9 @@ func (st *c18State) postHook(tx *c03TxInfo) {
 		p := st.pre[ri]
 		if p != nil {
 			// honoured only while its usage record has not expired
-			r.Check(!p.gone, "c18-expired-badge-honoured", "record_removed",
+			chk(!p.gone, "c18-expired-badge-honoured", "record_removed",
 				"badge (alloc=%d epoch=%d user=%s) was honoured for provider %s at height %d after its BadgeUsedCu record had existed and was removed (expiry per BadgeUsedCuExpiry=%d)", b.CuAllocation, b.Epoch, s.NameOf(b.Address), s.NameOf(rel.Provider), tx.Height, p.expiry)
-			r.Check(p.found || p.expiry > tx.Height, "c18-expired-badge-honoured", "expiry_block_passed",
+			chk(p.found || p.expiry > tx.Height, "c18-expired-badge-honoured", "expiry_block_passed",
 				"badge (alloc=%d epoch=%d) was honoured for provider %s at height %d with no usage record although BadgeUsedCuExpiry=%d", b.CuAllocation, b.Epoch, s.NameOf(rel.Provider), tx.Height, p.expiry)
 		}
 		cb := st.bySig[string(b.ProjectSig)]
@@ -161,7 +177,7 @@ func (st *c18State) postHook(tx *c03TxInfo) {
 		cb.credited[rel.Provider] += credit[ri]
 		cb.signed[rel.Provider] += rel.CuSum
 		cb.seenRec[rel.Provider] = true
-		r.Check(cb.credited[rel.Provider] <= alloc, "c18-badge-overuse", "credited_gt_allocation",
+		chk(cb.credited[rel.Provider] <= alloc, "c18-badge-overuse", "credited_gt_allocation",
 			"badge of %s for user %s epoch %d allocation %d: %d CU credited to provider %s through it so far (this relay: %d of signed %d)", s.NameOf(ri.Client), s.NameOf(b.Address), b.Epoch, alloc, cb.credited[rel.Provider], s.NameOf(rel.Provider), credit[ri], rel.CuSum)
 		if cb.signed[rel.Provider] == alloc {
 			r.Probe("c18_allocation_used_exactly")
@@ -398,6 +414,22 @@ func (st *c18State) providerOf(cb *c18Badge, same bool) *ProviderActor {
 	return s.pickProv()
 }
 
+// c18Attach gives the run badge users, badges and the c18badge operation; the C18 oracles are
+// evaluated only when oracles is true.
+func c18Attach(k *c03Kit, oracles bool) *c18State {
+	st := &c18State{k: k, bySig: map[string]*c18Badge{}, pre: map[*c03RelInfo]*c18Pre{}, users: map[string]bool{}, oracles: oracles}
+	for _, u := range k.badgeUsers {
+		st.users[u.Addr] = true
+	}
+	for old := range c18States {
+		delete(c18States, old)
+	}
+	c18States[k] = st
+	k.preHooks = append(k.preHooks, st.preHook)
+	k.postHooks = append(k.postHooks, st.postHook)
+	return st
+}
+
 // ---------- the property ----------
 
 func runC18(r *simrt.Run) {
@@ -414,17 +446,10 @@ func runC18(r *simrt.Run) {
 	s := NewSim(r, cfg)
 	k := c03NewKit(s)
 	defer delete(c03Kits, s)
-	st := &c18State{k: k, bySig: map[string]*c18Badge{}, pre: map[*c03RelInfo]*c18Pre{}, users: map[string]bool{}}
-	for _, u := range k.badgeUsers {
-		st.users[u.Addr] = true
-	}
-	for old := range c18States {
-		delete(c18States, old)
-	}
-	c18States[k] = st
+	st := c18Attach(k, true)
 	defer delete(c18States, k)
-	k.preHooks = append(k.preHooks, st.preHook)
-	k.postHooks = append(k.postHooks, st.postHook)
+	k.checkC03 = false
+	_ = st
 	s.RunHistory()
 }
 
